@@ -1023,6 +1023,13 @@ func tplRouteCheck(items []tplItem, root tplRoot) string {
 		switch {
 		case strings.HasPrefix(it.argDesc, "<query:"):
 			want, what = "IN", "the "+strings.Trim(it.argDesc, "<>")+" of the construct"
+		case it.chain == "compileObject>compileObjectKeyVal" && root.fn == "compileObject":
+			// the key/value pairs of an object construction all see the object's input
+			for _, f := range tplRouteIN["compileObjectKeyVal"] {
+				if field(it.arg) == f {
+					want, what = "IN", it.arg
+				}
+			}
 		case it.chain == root.fn:
 			for _, f := range tplRouteIN[root.fn] {
 				if field(it.arg) == f {
